@@ -11,7 +11,7 @@ RUN_MODULE = "C11.Run"
 RUN_FN = "run_case"
 HARNESS_BIN = "c11"
 HARNESS_BINS = ["c11"]
-SHRINK_KEEP = ("new", "bad", "expect", "drain_check", "drain_check_x", "arrive", "peer_close", "sndbuf", "flush_check", "write", "bb_worker", "bb_oversize")
+SHRINK_KEEP = ("new", "bad", "expect", "drain_check", "drain_check_x", "arrive", "peer_close", "sndbuf", "flush_check", "write", "bb_worker", "bb_oversize", "bb_oversize_prefix")
 RULE = ("cases: delivery histories (d*: framed WorkerResponse stream, optionally with malformed frames in "
         "between, cut at seeded points into arrive/ev/turn triples), API-level op sequences (a*), writer "
         "sequences (w*), malformed-prefix sequences (m*); sizes straddle init, 2*init, max/2, max. "
@@ -351,6 +351,8 @@ def bb_cases(rng, tier):
     for j in range({"quick": 1, "thorough": 3, "search": 2}.get(tier, 1)):
         init, mx = [(256, 256), (128, 256), (64, 300)][j % 3]
         out.append(Case("bo%d" % j, [["bb_oversize", init, mx]], dict(msgs=0, chunks=0)))
+    # open finding oversize-worker-loop: a declared length above the ceiling on the worker's side of the channel
+    out.append(Case("bp0", [["bb_oversize_prefix", 1024, rng.choice([4096, 16384])]], dict(msgs=0, chunks=0)))
     return out
 
 
